@@ -308,7 +308,7 @@ func (cmd *mainCmd) Run(args []string) error {
 		}
 
 		var out bytes.Buffer
-		if err := format.Node(&out, fset, f); err != nil {
+		if err := formatNode(&out, fset, f); err != nil {
 			log.Printf("%s: failed: %v", filename, err)
 			errors = append(errors, fmt.Errorf("failed to rewrite %q: %v", filename, err))
 			continue
@@ -357,6 +357,18 @@ func (cmd *mainCmd) Run(args []string) error {
 	return multierr.Combine(errors...)
 }
 
+// formatNode is format.Node, except that a panic of the printer on a syntax
+// tree it cannot print (a patch can put nodes where they do not belong) is
+// reported as an error for that file.
+func formatNode(dst io.Writer, fset *token.FileSet, f *ast.File) (err error) {
+	defer func() {
+		if p := recover(); p != nil {
+			err = fmt.Errorf("internal error: %v", p)
+		}
+	}()
+	return format.Node(dst, fset, f)
+}
+
 func checkGeneratedCode(f *ast.File) bool {
 	if ast.IsGenerated(f) {
 		return true
@@ -401,6 +413,16 @@ func newPatchRunner(fset *token.FileSet, patches []*engine.Program) *patchRunner
 }
 
 func (r *patchRunner) Apply(filename string, f *ast.File) (fout *ast.File, comments []string, matched bool) {
+	// An ill-typed patch (say, an expression metavariable where only a name
+	// can go) makes the reflection-based engine panic. Report that as a
+	// failure to update this file instead of crashing.
+	defer func() {
+		if p := recover(); p != nil {
+			r.errors = append(r.errors, fmt.Errorf("could not update %q: internal error: %v", filename, p))
+			fout, matched = nil, false
+		}
+	}()
+
 	snap := astdiff.Before(f, ast.NewCommentMap(r.fset, f, f.Comments))
 
 	for _, prog := range r.patches {
